@@ -131,6 +131,10 @@ pub open spec fn raw_hashed<K, V, S>(t: RawTable<(K, V)>, hb: S) -> bool {
 }
 impl<K, V, S> HashMap<K, V, S> {
     pub open spec fn hashed(&self) -> bool { raw_hashed(self.table, self.hash_builder) }
+    /// some stored key equals `q`
+    pub open spec fn present<Q: ?Sized>(&self, q: &Q) -> bool {
+        exists|b: Bucket<(K, V)>| #[trigger] self.table.valid_bucket(b) && key_eq::<Q, K>(q, &self.table.elem(b).0)
+    }
     /// no stored key equals `q`
     pub open spec fn absent<Q: ?Sized>(&self, q: &Q) -> bool { raw_absent::<Q, K, V>(self.table, q) }
     /// `self` is `o` with the element designated by `item` overwritten by `x` (same builder)
@@ -160,10 +164,42 @@ impl<'a, K, V, S> VacantEntry<'a, K, V, S> {
 } // verus!
 verus! {
 // ---- map-level iterator wrappers (C08): how many elements each wrapper still has to yield
-impl<'a, K, V> map::Iter<'a, K, V> { pub open spec fn left(&self) -> nat { self.inner.left() } }
+impl<'a, K, V> map::Iter<'a, K, V> {
+    pub open spec fn left(&self) -> nat { self.inner.left() }
+    /// the table this iterator borrows (R22: the phantom borrow as a ghost reference)
+    pub open spec fn src(&self) -> RawTable<(K, V)> { *self.marker@ }
+    /// every bucket still to be yielded is an occupied bucket of the borrowed table
+    pub open spec fn within(&self) -> bool { self.inner.within(self.src()) }
+}
+impl<T> RawIter<T> {
+    pub open spec fn within(&self, t: RawTable<T>) -> bool {
+        &&& self.table@.table == t.table@.id && self.table@.remaining.subset_of(t.table@.items.dom())
+        &&& match self.leftovers { Some(li) => li@.remaining =~= Set::<int>::empty() || (t.leftovers.is_some() && li@.table == t.leftovers->0.table@.id
+                                        && li@.remaining.subset_of(t.leftovers->0.table@.items.dom())), None => true }
+    }
+    /// `self` is `o` after yielding exactly bucket `b`
+    pub open spec fn stepped(&self, o: Self, b: Bucket<T>) -> bool {
+        &&& o.has(b) && !self.has(b)
+        &&& forall|c: Bucket<T>| (c.in_main != b.in_main || c.bucket@.idx != b.bucket@.idx) ==> #[trigger] self.has(c) == o.has(c)
+    }
+    /// bucket `b` is still to be yielded
+    pub open spec fn has(&self, b: Bucket<T>) -> bool {
+        if b.in_main { self.table@.remaining.contains(b.bucket@.idx) } else { self.old_remaining().contains(b.bucket@.idx) }
+    }
+}
 impl<'a, K, V> map::IterMut<'a, K, V> { pub open spec fn left(&self) -> nat { self.inner.left() } }
-impl<'a, K, V> map::Keys<'a, K, V> { pub open spec fn left(&self) -> nat { self.inner.inner.left() } }
-impl<'a, K, V> map::Values<'a, K, V> { pub open spec fn left(&self) -> nat { self.inner.inner.left() } }
+impl<'a, K, V> map::Keys<'a, K, V> {
+    pub open spec fn left(&self) -> nat { self.inner.inner.left() }
+    pub open spec fn src(&self) -> RawTable<(K, V)> { self.inner.src() }
+    pub open spec fn within(&self) -> bool { self.inner.within() }
+    pub open spec fn has(&self, b: Bucket<(K, V)>) -> bool { self.inner.inner.has(b) }
+}
+impl<'a, K, V> map::Values<'a, K, V> {
+    pub open spec fn left(&self) -> nat { self.inner.inner.left() }
+    pub open spec fn src(&self) -> RawTable<(K, V)> { self.inner.src() }
+    pub open spec fn within(&self) -> bool { self.inner.within() }
+    pub open spec fn has(&self, b: Bucket<(K, V)>) -> bool { self.inner.inner.has(b) }
+}
 impl<'a, K, V> map::ValuesMut<'a, K, V> { pub open spec fn left(&self) -> nat { self.inner.inner.left() } }
 impl<K, V> map::IntoIter<K, V> { pub open spec fn left(&self) -> nat { self.inner.rest().len() } }
 impl<'a, K, V> map::Drain<'a, K, V> { pub open spec fn left(&self) -> nat { self.inner.rest().len() } }
@@ -177,7 +213,12 @@ impl<T> RawIter<T> {
 }
 } // verus!
 verus! {
-impl<'a, K> set::Iter<'a, K> { pub open spec fn left(&self) -> nat { self.iter.left() } }
+impl<'a, K> set::Iter<'a, K> {
+    pub open spec fn left(&self) -> nat { self.iter.left() }
+    pub open spec fn src(&self) -> RawTable<(K, ())> { self.iter.src() }
+    pub open spec fn within(&self) -> bool { self.iter.within() }
+    pub open spec fn has(&self, b: Bucket<(K, ())>) -> bool { self.iter.has(b) }
+}
 impl<K> set::IntoIter<K> { pub open spec fn left(&self) -> nat { self.iter.left() } }
 impl<'a, K> set::Drain<'a, K> { pub open spec fn left(&self) -> nat { self.iter.left() } }
 } // verus!
